@@ -1,7 +1,7 @@
 SPECIFICATION Spec
-CONSTANT MaxN = 4
+CONSTANT MaxN = 3
 CONSTANT Small = FALSE
-CONSTANT Rich = FALSE
+CONSTANT Rich = TRUE
 INVARIANT TypeOK
 INVARIANT UAFNeedsDelete
 INVARIANT UAFNever404
